@@ -201,6 +201,10 @@ def install_shims(np=True, pickle=True, pool=True):
     from engine.shims import builtins_shim
     core.functools = builtins_shim.functools_ns
     core.set = builtins_shim.PySet
+    # formatting is not the subject: exception messages of core.py embed repr(self) of the whole pipeline (textwrap.indent
+    # over function reprs with memory addresses), which CrossHair models symbolically, slowly and non-deterministically
+    core.Dataset.__repr__ = lambda self: '<dataset>'
+    core.ProfilingDataset.__repr__ = lambda self: '<profiling dataset>'
 
 
 def pin_real_floats():
